@@ -1,5 +1,6 @@
 import Pymeeus.Refine.Ellipsoid
 import Pymeeus.Refine.Parallax
+import Pymeeus.Refine.ParallaxEcl
 /-!
 # C18 — Earth ellipsoid quantities and surface distance satisfy their identities
 
@@ -243,19 +244,63 @@ theorem distance_antipodal_undefined (el : Ell) (lon lat : ℝ) :
   rw [hl, hf, hg, Real.sin_neg, Real.cos_neg, Real.sin_pi_div_two, Real.cos_pi_div_two, Real.sin_zero, Real.cos_zero]
   apply andoyer_antipodal <;> norm_num
 
-/-! ## Topocentric parallax -/
+/-! ## Topocentric parallax (after the repairs f8a396f and ea54de3) -/
 
 /-- Value of a result, `d` when the model raised an exception (used to state limits of the model functions). -/
 def valueOr {α : Type} (d : α) : PyRes α → α
   | .ok a => a
   | .error _ => d
 
-/-- "Topocentric parallax corrections tend to zero as distance grows" for `parallax_correction`, proved for bodies
-    that are not at a celestial pole (`|δ| < 90°`) and right ascensions in the range of an Angle (`|α| < 360°`): the
-    corrected pair `(α', δ')` tends to `(α, δ)` as `distance → ∞`, for every observer latitude, hour angle and height.
-    (`_partial`: the bound "never more than the horizontal parallax" is not proved here — it is evaluated on the
-    implementation by the harness — and is FALSE within the horizontal parallax of a pole, see the counterexample below.) -/
-theorem parallax_correction_limit_partial (ra dec lat ha height : ℝ) (hra : |ra| < 360) (h1 : -90 < dec) (h2 : dec < 90) :
+/-- `parallax_correction` succeeds for every non-zero distance and returns a declination in `[-90°, 90°]` — also at and
+    near the celestial poles, where the code before f8a396f returned `δ' − 180°`. -/
+theorem parallax_correction_declination_in_range (ra dec lat : ℝ) {dist : ℝ} (hd : dist ≠ 0) (ha height : ℝ) :
+    ∃ ra' dec', parallax_correction ra dec lat dist ha height = .ok (ra', dec') ∧ -90 ≤ dec' ∧ dec' ≤ 90 := by
+  obtain ⟨h1, h2⟩ := dec'_range dec lat dist ha height
+  exact ⟨_, _, parallax_correction_eq ra dec lat hd ha height, h1, h2⟩
+
+/-- "Topocentric parallax corrections … never displace a body by more than the horizontal parallax
+    asin(sin 8.794 arcsec / distance)" for `parallax_correction`, for EVERY right ascension, declination (poles
+    included), observer latitude, hour angle and height: with `ρ² = (ρ cos φ')² + (ρ sin φ')²` the observer's geocentric
+    distance in equatorial radii and `s = ρ · sin 8.794'' / distance < 1` (the body is outside the Earth), the angular
+    separation `p` between `(α, δ)` and the returned `(α', δ')` satisfies `cos p ≥ sqrt(1 − s²)`, i.e.
+    `p = arccos(…) ≤ arcsin s`.  (At sea level `ρ ≤ 1`; the factor is the one of DESIGN §6 C18.) -/
+theorem parallax_correction_bounded_by_horizontal_parallax (ra dec lat : ℝ) {dist : ℝ} (hd : dist ≠ 0) (ha height : ℝ) :
+    ∃ ra' dec' rc rs, parallax_correction ra dec lat dist ha height = .ok (ra', dec') ∧
+      rho_cosphi WGS84 lat height = .ok rc ∧ rho_sinphi WGS84 lat height = .ok rs ∧
+      ((sin_pi0 / dist) ^ 2 * (rc ^ 2 + rs ^ 2) < 1 →
+        Real.sqrt (1 - (sin_pi0 / dist) ^ 2 * (rc ^ 2 + rs ^ 2))
+            ≤ Real.sin (pradians dec) * Real.sin (pradians dec')
+              + Real.cos (pradians dec) * Real.cos (pradians dec') * Real.cos (pradians (ra' - ra)) ∧
+        Real.arccos (Real.sin (pradians dec) * Real.sin (pradians dec')
+              + Real.cos (pradians dec) * Real.cos (pradians dec') * Real.cos (pradians (ra' - ra)))
+            ≤ Real.arcsin (Real.sqrt ((sin_pi0 / dist) ^ 2 * (rc ^ 2 + rs ^ 2)))) := by
+  refine ⟨_, _, _, _, parallax_correction_eq ra dec lat hd ha height, rho_cosphi_eq wgs84_valid lat height,
+    rho_sinphi_eq wgs84_valid lat height, ?_⟩
+  intro hs
+  have hb := parallax_correction_bound dec lat dist ha height hs
+  obtain ⟨j, hj⟩ := reduce_deg_congr (ra + delta_a dec lat dist ha height)
+  have hcos : Real.cos (pradians (angle_add ra (delta_a dec lat dist ha height) - ra))
+      = Real.cos (pradians (delta_a dec lat dist ha height)) := by
+    unfold angle_add; rw [hj]
+    have : pradians (ra + delta_a dec lat dist ha height + 360 * (j : ℝ) - ra)
+        = pradians (delta_a dec lat dist ha height) + (j : ℝ) * (2 * π) := by unfold pradians; ring
+    rw [this, Real.cos_add_int_mul_two_pi]
+  rw [hcos]
+  have hb' : Real.sqrt (1 - (sin_pi0 / dist) ^ 2 * (rcos lat height ^ 2 + rsin lat height ^ 2))
+      ≤ Real.sin (pradians dec) * Real.sin (pradians (dec' dec lat dist ha height))
+        + Real.cos (pradians dec) * Real.cos (pradians (dec' dec lat dist ha height))
+          * Real.cos (pradians (delta_a dec lat dist ha height)) := hb
+  refine ⟨hb', ?_⟩
+  have hs0 : 0 ≤ (sin_pi0 / dist) ^ 2 * (rcos lat height ^ 2 + rsin lat height ^ 2) := by positivity
+  change Real.arccos _ ≤ Real.arcsin (Real.sqrt ((sin_pi0 / dist) ^ 2 * (rcos lat height ^ 2 + rsin lat height ^ 2)))
+  rw [Real.arcsin_eq_arccos (Real.sqrt_nonneg _), Real.sq_sqrt hs0]
+  exact Real.arccos_le_arccos hb'
+
+/-- "Topocentric parallax corrections tend to zero as distance grows": in coordinates, `(α', δ') → (α, δ)` as
+    `distance → ∞` for every observer latitude, hour angle and height, for bodies not at a pole (`|δ| < 90°`; at a
+    pole α' has no limit) and `|α| < 360°` (the range of an Angle).  In terms of the angular separation the statement
+    for every δ is the bound above: `p ≤ asin(ρ sin 8.794''/distance) → 0`. -/
+theorem parallax_correction_limit (ra dec lat ha height : ℝ) (hra : |ra| < 360) (h1 : -90 < dec) (h2 : dec < 90) :
     Tendsto (fun dist => valueOr (0, 0) (parallax_correction ra dec lat dist ha height)) atTop (𝓝 (ra, dec)) := by
   have hpi := Real.pi_pos
   have hd1 : -(π / 2) < pradians dec := by unfold pradians; nlinarith
@@ -265,7 +310,6 @@ theorem parallax_correction_limit_partial (ra dec lat ha height : ℝ) (hra : |r
   have hdc := dec'_tendsto dec lat ha height h1 h2
   have hsum : Tendsto (fun dist => ra + delta_a dec lat dist ha height) atTop (𝓝 ra) := by
     simpa using (tendsto_const_nhds (x := ra)).add hda
-  -- eventually the sum stays inside (-360, 360), where reduce_deg is the identity
   have hev : ∀ᶠ dist in atTop, |ra + delta_a dec lat dist ha height| < 360 :=
     (continuous_abs.tendsto ra).comp hsum |>.eventually (gt_mem_nhds hra)
   have hpair : Tendsto (fun dist => (ra + delta_a dec lat dist ha height, dec' dec lat dist ha height)) atTop (𝓝 (ra, dec)) :=
@@ -275,36 +319,93 @@ theorem parallax_correction_limit_partial (ra dec lat ha height : ℝ) (hra : |r
   rw [parallax_correction_eq ra dec lat hpos.ne' ha height]
   simp only [valueOr, angle_add, reduce_deg_small hsmall]
 
-/-- The clause "never displace a body by more than the horizontal parallax" is FALSE of `parallax_correction` at a
-    celestial pole: for every distance, a body at declination +90° seen from the equator at sea level with hour
-    angle 0 gets a "declination" in `(-180°, -90°)` — the opposite hemisphere (finding
-    C18-parallax-correction-polar-cap; the harness shows the same on the implementation within the horizontal
-    parallax of either pole). -/
-theorem parallax_correction_pole_counterexample (ra : ℝ) {dist : ℝ} (hd : 0 < dist) :
-    ∃ ra' dec', parallax_correction ra 90 0 dist 0 0 = .ok (ra', dec') ∧ -180 < dec' ∧ dec' < -90 := by
-  obtain ⟨h1, h2⟩ := polar_dec hd
-  exact ⟨_, _, parallax_correction_eq ra 90 0 hd.ne' 0 0, h1, h2⟩
+/-- `parallax_ecliptical`: every successful call (any semidiameter) returns a longitude in `[0°, 360°)` and a latitude
+    in `[-90°, 90°]`, and displaces the body by at most the horizontal parallax: with `s = ρ sin 8.794''/distance < 1`
+    the separation `p` between `(λ, β)` and the returned `(λ', β')` has `cos p ≥ sqrt(1 − s²)`, `p ≤ arcsin s`.
+    (Before ea54de3 southern latitudes with `cos λ' > 0` came back as `180° − |β'|`.) -/
+theorem parallax_ecliptical_in_range_and_bounded (lon lat semi obs obl sid : ℝ) {dist : ℝ} (hd : dist ≠ 0) (height : ℝ)
+    {tl tb ts : ℝ} (h : parallax_ecliptical lon lat semi obs obl sid dist height = .ok (tl, tb, ts)) :
+    0 ≤ tl ∧ tl < 360 ∧ -90 ≤ tb ∧ tb ≤ 90 ∧
+    ∃ rc rs, rho_cosphi WGS84 obs height = .ok rc ∧ rho_sinphi WGS84 obs height = .ok rs ∧
+      ((sin_pi0 / dist) ^ 2 * (rc ^ 2 + rs ^ 2) < 1 →
+        Real.sqrt (1 - (sin_pi0 / dist) ^ 2 * (rc ^ 2 + rs ^ 2))
+            ≤ Real.sin (pradians lat) * Real.sin (pradians tb)
+              + Real.cos (pradians lat) * Real.cos (pradians tb) * Real.cos (pradians tl - pradians lon) ∧
+        Real.arccos (Real.sin (pradians lat) * Real.sin (pradians tb)
+              + Real.cos (pradians lat) * Real.cos (pradians tb) * Real.cos (pradians tl - pradians lon))
+            ≤ Real.arcsin (Real.sqrt ((sin_pi0 / dist) ^ 2 * (rc ^ 2 + rs ^ 2)))) := by
+  obtain ⟨h1, h2⟩ := parallax_ecliptical_ok lon lat semi obs obl sid hd height h
+  simp only at h1 h2
+  obtain ⟨r1, r2⟩ := elon0_range lon lat obs obl sid dist height
+  obtain ⟨p1, p2, _⟩ := to_positive_spec r1 r2
+  obtain ⟨q1, q2⟩ := elat_range lon lat obs obl sid dist height
+  rw [h1, h2]
+  refine ⟨p1, p2, q1, q2, _, _, rho_cosphi_eq wgs84_valid obs height, rho_sinphi_eq wgs84_valid obs height, ?_⟩
+  intro hs
+  have hb : Real.sqrt (1 - (sin_pi0 / dist) ^ 2 * (rcos obs height ^ 2 + rsin obs height ^ 2))
+      ≤ Real.sin (pradians lat) * Real.sin (pradians (elat lon lat obs obl sid dist height))
+        + Real.cos (pradians lat) * Real.cos (pradians (elat lon lat obs obl sid dist height))
+          * Real.cos (pradians (to_positive (elon0 lon lat obs obl sid dist height)) - pradians lon) :=
+    parallax_ecliptical_bound lon lat obs obl sid dist height hs
+  refine ⟨hb, ?_⟩
+  have hs0 : 0 ≤ (sin_pi0 / dist) ^ 2 * (rcos obs height ^ 2 + rsin obs height ^ 2) := by positivity
+  change Real.arccos _ ≤ Real.arcsin (Real.sqrt ((sin_pi0 / dist) ^ 2 * (rcos obs height ^ 2 + rsin obs height ^ 2)))
+  rw [Real.arcsin_eq_arccos (Real.sqrt_nonneg _), Real.sq_sqrt hs0]
+  exact Real.arccos_le_arccos hb
 
-/-- The same clause is FALSE of `parallax_ecliptical` for southern latitudes in the hemisphere `cos λ > 0`: for every
-    ecliptic latitude in `(-90°, 0°)`, body at λ = 0, observer on the equator at sea level, sidereal time 0, any
-    obliquity and any distance beyond the Earth's surface, the returned topocentric latitude lies in `(90°, 180°)`
-    (finding C18-parallax-ecliptical-south-latitude). -/
-theorem parallax_ecliptical_south_counterexample {lat dist : ℝ} (obl : ℝ) (h1 : -90 < lat) (h2 : lat < 0) (hd : 0 < dist)
+/-- The family on which the code before ea54de3 returned a latitude in `(90°, 180°)` (body at λ = 0 with a southern
+    latitude, observer on the equator at sea level, sidereal time 0): the call succeeds and the topocentric latitude
+    is southern, in `(-90°, 0°)`. -/
+theorem parallax_ecliptical_south_latitude {lat dist : ℝ} (obl : ℝ) (h1 : -90 < lat) (h2 : lat < 0) (hd : 0 < dist)
     (hn : sin_pi0 / dist < Real.cos (pradians lat)) :
-    ∃ tl, parallax_ecliptical 0 lat 0 0 obl 0 dist 0 = .ok (0, tl, 0) ∧ 90 < tl ∧ tl < 180 :=
-  ecliptical_south obl h1 h2 hd hn
+    ∃ tl tb, parallax_ecliptical 0 lat 0 0 obl 0 dist 0 = .ok (tl, tb, 0) ∧ -90 < tb ∧ tb < 0 := by
+  have hpi := Real.pi_pos
+  have hb2 : pradians lat < 0 := by unfold pradians; nlinarith
+  have hb1 : -π < pradians lat := by unfold pradians; nlinarith
+  have hsin : Real.sin (pradians lat) < 0 := Real.sin_neg_of_neg_of_neg_pi_lt hb2 hb1
+  have hen : en 0 lat 0 0 dist 0 = Real.cos (pradians lat) - sin_pi0 / dist := by
+    unfold en; rw [rcos_equator_sea_level, pradians_zero, Real.cos_zero]; ring
+  have hez : ezz lat 0 obl 0 dist 0 = Real.sin (pradians lat) := by
+    unfold ezz; rw [rcos_equator_sea_level, rsin_equator_sea_level, pradians_zero, Real.sin_zero]; ring
+  have hnpos : 0 < en 0 lat 0 0 dist 0 := by rw [hen]; linarith
+  have hehpos : 0 < eh 0 lat 0 obl 0 dist 0 := by
+    unfold eh; apply Real.sqrt_pos.mpr
+    nlinarith [mul_self_nonneg (eyl 0 lat 0 obl 0 dist 0), mul_pos hnpos hnpos]
+  refine ⟨_, _, parallax_ecliptical_semi0 0 lat 0 obl 0 hd.ne' 0 hehpos.ne', ?_, ?_⟩
+  · -- re > 0 gives |arg| < π/2
+    have : |Complex.arg ⟨eh 0 lat 0 obl 0 dist 0, ezz lat 0 obl 0 dist 0⟩| < π / 2 := by
+      rw [Complex.abs_arg_lt_pi_div_two_iff]; exact Or.inl hehpos
+    have hlo := (abs_lt.mp this).1
+    unfold elat
+    calc (-90 : ℝ) = -(π / 2) * (180 / π) := by field_simp; ring
+      _ < _ := mul_lt_mul_of_pos_right hlo (by positivity)
+  · have : Complex.arg ⟨eh 0 lat 0 obl 0 dist 0, ezz lat 0 obl 0 dist 0⟩ < 0 := by
+      rw [Complex.arg_neg_iff]; show ezz lat 0 obl 0 dist 0 < 0; rw [hez]; exact hsin
+    unfold elat
+    exact mul_neg_of_neg_of_pos this (by positivity)
 
-/-- The hypotheses of the counterexample are satisfiable (β = -10°, 1 AU). -/
+/-- The hypotheses of `parallax_ecliptical_south_latitude` are satisfiable (β = -10°, 1 AU). -/
 example : sin_pi0 / 1 < Real.cos (pradians (-10)) := by
   have hpi := Real.pi_pos
   have h3 := Real.pi_lt_d2
-  have hs : sin_pi0 ≤ 1.0 * (0 + 0 / 60.0 + 8.794 / 3600.0) * (π / 180) := by
-    unfold sin_pi0 psin pradians
-    apply Real.sin_le; norm_num; positivity
+  have hs : sin_pi0 ≤ 8.794 / 3600 * (π / 180) := by
+    rw [sin_pi0_eq]; apply Real.sin_le; positivity
   have hc := Real.one_sub_sq_div_two_le_cos (x := pradians (-10))
   unfold pradians at hc ⊢
   rw [div_one]
   norm_num at hs hc ⊢
+  nlinarith
+
+/-- The hypothesis `s < 1` of the bounds holds e.g. for the Moon's distance (0.0025 AU) at any sea-level site with
+    `ρ ≤ 1`: `sin 8.794'' / 0.0025 < 1`. -/
+example : (sin_pi0 / 0.0025) ^ 2 * 1 < 1 := by
+  have hpi := Real.pi_pos
+  have h3 := Real.pi_lt_d2
+  have hs : sin_pi0 ≤ 8.794 / 3600 * (π / 180) := by
+    rw [sin_pi0_eq]; apply Real.sin_le; positivity
+  have h0 := sin_pi0_pos
+  have : sin_pi0 / 0.0025 < 1 := by rw [div_lt_one (by norm_num)]; nlinarith
+  have h1 : 0 < sin_pi0 / 0.0025 := by positivity
   nlinarith
 
 example : Valid WGS84 := ⟨by norm_num [WGS84], by norm_num [WGS84], by norm_num [WGS84]⟩
